@@ -72,6 +72,8 @@ type NetCfg struct {
 
 // Scenario is the explicit, replayable description of one run.
 type Scenario struct {
+	// Seed, when not zero, replaces the run's seed (mode directed: a kept scenario runs with the seed it was found with)
+	Seed     uint64      `json:"seed,omitempty"`
 	Backend  string      `json:"backend"` // M (repo mocktikv) | R (reference store)
 	Stores   int         `json:"stores"`
 	Splits   []string    `json:"splits"`
